@@ -528,6 +528,16 @@ impl Shared {
     }
 
     pub fn enabled(&self, s: &St) -> Vec<Act> {
+        // a persisted counter at or beyond the number of leaves is not a state of the key's lifetime: the
+        // transition that produced it has been reported (successor is not the wiped key); exploring on
+        // from it would never terminate if the implementation keeps counting
+        if s.key.len() >= 8 && s.key.len() == self.init_key.len() && s.key[8..16] == self.init_key[8..16] {
+            let c = u64::from_be_bytes(s.key[..8].try_into().unwrap());
+            let total = Model::total_leaves(&self.model.heights(&self.cfg.params));
+            if c as u128 >= total {
+                return vec![];
+            }
+        }
         if let Some(ms) = self.cfg.max_steps {
             // the window is bounded on the persisted counter (a key may advance without a release)
             let c = if s.key.len() >= 8 { u64::from_be_bytes(s.key[..8].try_into().unwrap()) } else { u64::MAX };
